@@ -160,6 +160,10 @@ def run_rate(beh, kexes, nkeys, mode, latency):
             argv += ['-M', path]
         elif mode == 'skip':
             argv += ['--skip-rate-test']
+        elif mode == 'verbose':
+            argv += ['-v']
+        elif mode == 'debug-batch':
+            argv += ['-d', '-b']
         argv.append(H.HOST)
         res = runner.run_cli(argv, w)
     finally:
@@ -254,7 +258,7 @@ def run(tier, seed):
     for beh in RATE_BEHAVIOURS:
         for kexes in (('curve25519-sha256',), ('diffie-hellman-group14-sha256', 'diffie-hellman-group-exchange-sha256'), ('sntrup761x25519-sha512@openssh.com',)):
             for nkeys in (1, 3):
-                for mode in ('standard', 'policy', 'make', 'skip'):
+                for mode in ('standard', 'policy', 'make', 'skip', 'verbose', 'debug-batch'):
                     for latency in ((0.01, 0.05, 0.2) if tier != 'quick' else (0.01, 0.1)):
                         rate_tasks.append((beh, kexes, nkeys, mode, latency))
     import itertools as _it
